@@ -370,15 +370,17 @@ func (broker *Broker) recover() (send []sts.Hashed, err error) {
 			var beg int64
 			var missing chunks
 			for _, part := range parts {
-				if beg == part.Beg {
-					beg = part.End
-					continue
+				// The ranges the receiver lists may overlap (the same bytes
+				// arrived again in a payload cut at other boundaries)
+				if beg < part.Beg {
+					missing = append(missing, &sts.ByteRange{
+						Beg: beg,
+						End: part.Beg,
+					})
 				}
-				missing = append(missing, &sts.ByteRange{
-					Beg: beg,
-					End: part.Beg,
-				})
-				beg = part.End
+				if beg < part.End {
+					beg = part.End
+				}
 			}
 			if beg < f.GetSize() {
 				missing = append(missing, &sts.ByteRange{
